@@ -17,7 +17,7 @@ RULE = ('case = (half bit period n => 2n system clocks per bit, byte sequence, p
         'divider ratios of real boards (200, 434, 868, 5208 clocks per bit). Distinct by JSON hash.')
 ASSUMPTIONS = [
     'the clock divider realises 2*floor(r/2) system clocks per bit for a requested ratio r; the software receiver samples at that realised period',
-    'the link has no back-pressure: a received byte is available from its stop bit until the stop bit of the next byte (10 bit periods later when back to back); consumer stalls are sized so that the hand-over completes within that time in the worst phase alignment (stratum links: at most 3 bit periods; stratum long_consumer_stalls: up to 10 bit periods minus 8 clocks, with the consumer ready for at least 2 consecutive clocks)',
+    'the link has no back-pressure: a received byte is available from its stop bit until the stop bit of the next byte (10 bit periods later when back to back); consumer stalls are sized so that the hand-over completes within that time in the worst phase alignment (stratum links: at most 3 bit periods; stratum long_consumer_stalls: up to 10 bit periods minus 8 clocks, with the consumer ready for at least 2 consecutive clocks; sample-locked consumers are ready in the clock a byte completes and finish the hand-over at the latest in the clock the next byte completes - the boundary the unchanged deserializer supports, measured by sweeping every offset)',
     'liveness is bounded: every accepted byte must be delivered within 3 frame times after the last acceptance (deterministic cycle budget)',
 ]
 
@@ -80,7 +80,11 @@ def run_case(case):
     #                                clocks after the falling edge that starts the next frame (the received byte is
     #                                available until that frame's stop bit is sampled, 9.5 bit periods after the edge);
     #                                without a next frame it gives up waiting after 12 bit periods
-    period = 1 if (react or line) else max(1, on + off)
+    sample_locked = on == 'sample'
+    pulses = 0
+    stall_from = stall_until = None
+    stall_started = 0
+    period = 1 if (react or line or sample_locked) else max(1, on + off)
     stall_left = 0
     handled = False
     waiting = False
@@ -96,8 +100,27 @@ def run_case(case):
             frame_t0 = None                      # past the stop-bit sampling point
         if frame_t0 is None and prev_tx == 1 and cur_tx == 0:
             frame_t0 = t
+            pulses = 0
         prev_tx = cur_tx
-        if line:
+        if rx_sample.get() == 1:
+            pulses += 1                          # 1 = start bit sample, 2..9 = data bits, 10 = stop bit
+        if sample_locked:
+            # ready by default; from `lo` clocks after a stop-bit sample the consumer is not ready until `hi` clocks
+            # relative to the stop-bit sample of the next frame (hi <= 0; that clock is one nominal bit period after the
+            # 9th sample pulse), or for 12 bit periods when no further frame arrives
+            lo_, hi_ = off
+            if rx_sample.get() == 1 and pulses == 10:
+                stall_from = t + lo_
+                stall_until = None
+                stall_started = t
+            if rx_sample.get() == 1 and pulses == 9 and stall_from is not None:
+                stall_until = t + P + hi_
+            if stall_from is not None and t >= stall_from:
+                if (stall_until is not None and t >= stall_until) or t - stall_started > 12 * P:
+                    stall_from = None
+                    stall_until = None
+            r = 0 if (stall_from is not None and t >= stall_from) else 1
+        elif line:
             if d_valid.get() == 1 and not waiting and not handled:
                 waiting = True
                 handled = True
@@ -177,6 +200,10 @@ def case_strategy(max_n, max_bytes):
     }))
 
 
+def _sample_ready(n):
+    return st.tuples(st.sampled_from([1, 1, 2, 3, n, 2 * n]), st.sampled_from([0, 0, -1, -1, -2, -3, -n])).map(lambda t: ['sample', list(t)])
+
+
 def long_stall_strategy(max_n):
     """back-to-back bytes and a consumer that stays not-ready for most of a frame: byte k is available from its stop bit
     until the stop bit of byte k+1 (10 bit periods later), and the periodic ready pattern is sized so that the hand-over
@@ -184,19 +211,24 @@ def long_stall_strategy(max_n):
     bit, delivery one clock later, at most once deferred to the next clock) - the last bit period before the deadline
     is exercised"""
     byte = st.one_of(st.sampled_from([0x00, 0xFF, 0x55, 0xAA, 0xA5, 0x3C]), st.integers(0, 255))
-    return st.integers(4, max_n).flatmap(lambda n: st.fixed_dictionaries({
+    return st.integers(2, max_n).flatmap(lambda n: st.fixed_dictionaries({
         'n': st.just(n),
         'odd': st.integers(0, 1),
         'bytes': st.lists(byte, min_size=3, max_size=5),
         'gaps': st.lists(st.sampled_from([0, 0, 1, 2]), min_size=1, max_size=2),
-        'ready': st.one_of(st.tuples(st.integers(2, 6), st.integers(16 * n, 20 * n - 8)).map(list),
+        'ready': _sample_ready(n) if n < 4 else st.one_of(st.tuples(st.integers(2, 6), st.integers(min(16 * n, 20 * n - 8), 20 * n - 8)).map(list),
                            # reactive consumer: valid is visible 2 clocks after the stop bit, the hand-over happens
                            # `stall` clocks later and must precede the next stop bit (20n clocks after the previous one)
-                           st.one_of(st.integers(0, 20 * n - 6), st.integers(18 * n - 4, 20 * n - 6)).map(lambda k: ['react', k]),
+                           st.one_of(st.integers(0, 20 * n - 6), st.integers(min(18 * n - 4, 20 * n - 6), 20 * n - 6)).map(lambda k: ['react', k]),
                            # timed on the line: hand-over k clocks after the next start edge, before its stop bit is sampled
                            # (19n clocks after the edge); the last bit period before that is over-represented
-                           st.one_of(st.integers(0, 19 * n - 5), st.integers(17 * n, 19 * n - 5)).map(lambda k: ['line', k]),
-                           st.one_of(st.integers(0, 19 * n - 5), st.integers(17 * n, 19 * n - 5)).map(lambda k: ['line', k])),
+                           st.one_of(st.integers(0, 19 * n - 5), st.integers(min(17 * n, 19 * n - 5), 19 * n - 5)).map(lambda k: ['line', k]),
+                           st.one_of(st.integers(0, 19 * n - 5), st.integers(min(17 * n, 19 * n - 5), 19 * n - 5)).map(lambda k: ['line', k]),
+                           # locked to the sample pulses: ready when a byte completes (so it is announced), not ready from
+                           # lo >= 1 clocks later until hi <= 0 clocks relative to the completion of the next byte - the
+                           # hand-over may coincide with that completion
+                           st.tuples(st.sampled_from([1, 1, 2, 3, n, 2 * n]), st.sampled_from([0, 0, -1, -1, -2, -3, -n])).map(lambda t: ['sample', list(t)]),
+                           st.tuples(st.sampled_from([1, 1, 2, 3, n, 2 * n]), st.sampled_from([0, 0, -1, -1, -2, -3, -n])).map(lambda t: ['sample', list(t)])),
     }))
 
 
